@@ -69,6 +69,9 @@ rev_lookahead | ok | S -> a S2 | b ; S2 -> S c
 self_embed_mid | ok | S -> a S b S | c
 wide_alt | ok | S -> a | b | c | d | e | f
 unreach_conflict | ok | S -> a ; U -> U U | b
+nested_cores_let_run | ok | S -> let R | run C ; R -> C | I ; C -> id lp ; I -> id ls
+nested_cores_get_invoke | ok | S -> get N semi | invoke A semi ; N -> id ; A -> id | id dot id
+nested_cores_swap | ok | S -> a X | b Y ; X -> P | Q ; Y -> P ; P -> i l ; Q -> i m
 eps_chain2_mid | ok | S -> k M id | id ; M -> p | D ; D -> N ; N ->
 eps_chain2_block | ok | B -> l Ss Lv r ; Ss -> | Ss s ; Lv -> C ; C -> H ; H ->
 eps_chain2_tail | ok | S -> n T ; T -> A eq num ; A -> Na | col id ; Na -> No ; No ->
